@@ -126,10 +126,35 @@ impl<S: Selector<Vec<i64>>> ChildMaker<Vec<i64>, S> for CmFailing {
     }
 }
 
-fn outcome<T, E: std::fmt::Display>(r: Result<T, E>, f: impl Fn(T) -> Tree) -> Tree {
+/// what an error reports: its message, then (-1) its debug form, then (-2 each) the messages of its source chain
+fn err_view(e: &(dyn std::error::Error + 'static)) -> Tree {
+    let mut v: Vec<Tree> = e.to_string().bytes().map(a).collect();
+    v.push(A(-1));
+    v.extend(format!("{e:?}").bytes().map(a));
+    let mut src = e.source();
+    let mut depth = 0;
+    while let Some(s) = src {
+        v.push(A(-2));
+        v.extend(s.to_string().bytes().map(a));
+        src = s.source();
+        depth += 1;
+        if depth > 16 {
+            break;
+        }
+    }
+    L(v)
+}
+fn outcome<T, E: std::error::Error + 'static>(r: Result<T, E>, f: impl Fn(T) -> Tree) -> Tree {
     match r {
         Ok(v) => tl![A(0), f(v)],
-        Err(e) => tl![A(1), L(e.to_string().bytes().map(a).collect())],
+        Err(e) => tl![A(1), err_view(&e)],
+    }
+}
+/// the erased error type is a boxed error: the same view of what it holds
+fn outcome_erased<T>(r: Result<T, Box<dyn std::error::Error + Send + Sync>>, f: impl Fn(T) -> Tree) -> Tree {
+    match r {
+        Ok(v) => tl![A(0), f(v)],
+        Err(e) => tl![A(1), err_view(&*e)],
     }
 }
 fn idx(pop: &[i64], p: &i64) -> Tree {
@@ -155,7 +180,7 @@ macro_rules! both {
         };
         let e = {
             let $rng2: &mut dyn RngCore = &mut r2;
-            outcome($erased?, $f)
+            outcome_erased($erased?, $f)
         };
         Some(tl![d, a(r1.next()), e, a(r2.next())])
     }};
@@ -218,12 +243,14 @@ fn run(input: &Tree) -> Option<Tree> {
             let x = data.i64()?;
             match im {
                 0 => both!(seed, |r| AddWord.apply(x, r), |r| erased_apply(fl, || AddWord, x, r), |v: i64| a(v)),
-                1 => both!(seed, |r| AddWord.then(AddWord).apply(x, r).map_err(|e| format!("{e}")), |r| erased_apply(fl, || ThenBoxed, x, r), |v: i64| a(v)),
+                1 => both!(seed, |r| ThenBoxed.apply(x, r), |r| erased_apply(fl, || ThenBoxed, x, r), |v: i64| a(v)),
                 2 => both!(seed, |r| Failing.apply(x, r), |r| erased_apply(fl, || Failing, x, r), |v: i64| a(v)),
                 3 => {
                     let g: Vec<bool> = (0..6).map(|i| (x >> i) & 1 == 1).collect();
                     both!(seed, |r| Mutate::new(WithRate::new(0.5)).apply(g.clone(), r), |r| erased_apply(fl, || Mutate::new(WithRate::new(0.5)), g.clone(), r), bools)
                 }
+                // an error with a cause behind it: the erased error must still lead to that cause
+                4 => both!(seed, |r| Chained.apply(x, r), |r| erased_apply(fl, || Chained, x, r), |v: i64| a(v)),
                 _ => None,
             }
         }
@@ -241,6 +268,29 @@ fn run(input: &Tree) -> Option<Tree> {
     }
 }
 
+/// fails (after drawing a word) with an error that has a source
+pub struct Chained;
+impl Composable for Chained {}
+#[derive(Debug)]
+pub struct Outer(Boom);
+impl std::fmt::Display for Outer {
+    fn fmt(&self, f: &mut std::fmt::Formatter<'_>) -> std::fmt::Result {
+        f.write_str("the second stage failed")
+    }
+}
+impl std::error::Error for Outer {
+    fn source(&self) -> Option<&(dyn std::error::Error + 'static)> {
+        Some(&self.0)
+    }
+}
+impl Operator<i64> for Chained {
+    type Output = i64;
+    type Error = Outer;
+    fn apply<R: rand::Rng + ?Sized>(&self, _: i64, rng: &mut R) -> Result<i64, Outer> {
+        Err(Outer(Boom(rng.next_u64() % 100)))
+    }
+}
+
 /// AddWord.then(AddWord) with a std error (ThenError<Boom, Boom> only implements Display/Error, fine)
 pub struct ThenBoxed;
 impl Composable for ThenBoxed {}
@@ -255,7 +305,7 @@ impl Operator<i64> for ThenBoxed {
 fn gen(tier: &str, rng: &mut Sm) -> Gen {
     let mut g = Gen::new();
     let reps = if tier == "thorough" { 12 } else { 2 };
-    let impls = [7, 3, 3, 4, 3];
+    let impls = [7, 3, 3, 5, 3];
     for tr in 0..5i64 {
         for im in 0..impls[tr as usize] {
             for fl in 0..NFLAVOURS {
